@@ -1,1 +1,123 @@
-import TT.Model.Wire
+/-
+  C17 — The storage query API is a consistent view of one forest.
+
+  `Storage.WF` holds for the empty storage and is preserved by every operation the capture layer
+  performs on a storage, hence for every storage any program can produce. On well-formed
+  storages the query functions of TT/Model/Forest.lean (models of lib.rs / iter.rs) satisfy the
+  laws of the property. Items are arena indices, so "equal only to themselves, ordered by
+  capture order" is equality and order of indices within a storage; across storages the Rust
+  `PartialEq`/`PartialOrd` impls compare the storage pointer first (checked by the harness).
+-/
+import TT.Model.Forest
+
+namespace TT
+
+open Storage
+
+theorem C17_wf_empty : Storage.WF {} := by
+  sorry
+
+/-- Preservation by the storage operations of layer.rs. -/
+theorem C17_wf_pushSpan (st st' : Storage) (mt : Nat) (vs : TVals) (p : Option Nat) (id : Nat)
+    (h : st.WF) (hp : st.pushSpan mt vs p = some (st', id)) : st'.WF ∧ id = st.spans.length := by
+  sorry
+
+theorem C17_wf_pushEvent (st st' : Storage) (mt : Nat) (vs : TVals) (p : Option Nat)
+    (h : st.WF) (hp : st.pushEvent mt vs p = some st') : st'.WF := by
+  sorry
+
+/-- Updates that keep a span's links (`on_span_enter`, `on_span_exit`, `on_span_closed`,
+    `on_record`) preserve well-formedness; so does adding a follows-from edge to a valid id. -/
+theorem C17_wf_update (st st' : Storage) (id : Nat) (f : CapSpan → CapSpan) (h : st.WF)
+    (hf : ∀ s, (f s).parent = s.parent ∧ (f s).children = s.children ∧ (f s).events = s.events ∧ (f s).follows = s.follows)
+    (hu : st.update id f = some st') : st'.WF := by
+  sorry
+
+theorem C17_wf_follows (st st' : Storage) (id fid : Nat) (h : st.WF) (hfid : fid < st.spans.length)
+    (hu : st.update id (fun s => { s with follows := s.follows ++ [fid] }) = some st') : st'.WF := by
+  sorry
+
+/-- Every storage produced by any program under any stack of capture layers is well-formed. -/
+theorem C17_wf_reachable (filters : List LFilter) (global : Option Nat) (sites : List CallSite) (ops : List POp) :
+    ∀ st ∈ (captureRun filters global sites ops).storages, st.WF := by
+  sorry
+
+/-! ### Laws on well-formed storages -/
+
+/-- Parent and children are inverse relations. -/
+theorem C17_parent_children_inverse (st : Storage) (h : st.WF) (p c : Nat) :
+    c ∈ st.childrenOf p ↔ (c < st.spans.length ∧ st.parentOf c = some p) := h.child_iff p c
+
+/-- Roots are exactly the spans and events without a captured parent, in capture order. -/
+theorem C17_roots (st : Storage) (h : st.WF) :
+    (∀ i, i ∈ st.rootSpans ↔ (i < st.spans.length ∧ st.parentOf i = none)) ∧
+    (∀ j, j ∈ st.rootEvents ↔ (j < st.events.length ∧ st.eventParent j = none)) ∧
+    st.rootSpans.Pairwise (· < ·) ∧ st.rootEvents.Pairwise (· < ·) := by
+  sorry
+
+/-- The ancestor chain is the parent chain: it is not cut short by the fuel of the model
+    (nor, in the code, by anything but a span without parent). -/
+theorem C17_ancestors_unfold (st : Storage) (h : st.WF) (i : Nat) :
+    st.ancestors i = match st.parentOf i with
+      | none => []
+      | some p => p :: st.ancestors p := by
+  sorry
+
+/-- Every ancestor chain is finite — strictly decreasing indices below the span — and ends at a
+    root. -/
+theorem C17_ancestors_finite (st : Storage) (h : st.WF) (i : Nat) :
+    (i :: st.ancestors i).Pairwise (· > ·) ∧
+    st.parentOf ((i :: st.ancestors i).getLast (by simp)) = none := by
+  sorry
+
+/-- The iterator of iter.rs yields exactly the pre-order traversal. -/
+theorem C17_descendants_preorder (st : Storage) (h : st.WF) (i : Nat) :
+    st.descendants i = st.preorder i := by
+  sorry
+
+/-- Descendants of a span are exactly the spans having it among their ancestors, each once,
+    parents before children. -/
+theorem C17_descendants_iff_ancestor (st : Storage) (h : st.WF) (s t : Nat) (hs : s < st.spans.length) :
+    (t ∈ st.descendants s ↔ (t < st.spans.length ∧ s ∈ st.ancestors t)) := by
+  sorry
+
+theorem C17_descendants_nodup (st : Storage) (h : st.WF) (s : Nat) : (st.descendants s).Nodup := by
+  sorry
+
+theorem C17_descendants_parents_first (st : Storage) (h : st.WF) (s p c : Nat)
+    (hc : c ∈ st.descendants s) (hp : st.parentOf c = some p) (hps : p ≠ s) :
+    ∃ l₁ l₂ l₃, st.descendants s = l₁ ++ p :: l₂ ++ c :: l₃ := by
+  sorry
+
+/-- Descendant events are exactly the events of the descendants, in traversal order. -/
+theorem C17_descendant_events (st : Storage) (i : Nat) :
+    st.descendantEvents i = (st.descendants i).flatMap st.eventsOf := rfl
+
+theorem C17_descendant_events_iff (st : Storage) (h : st.WF) (s j : Nat) (hs : s < st.spans.length) :
+    j ∈ st.descendantEvents s ↔ (j < st.events.length ∧ ∃ p, st.eventParent j = some p ∧ p ∈ st.descendants s) := by
+  sorry
+
+/-- Items are ordered by capture order, parents before children. -/
+theorem C17_parent_before_child (st : Storage) (h : st.WF) (i p : Nat) (hp : st.parentOf i = some p) : p < i :=
+  h.parent_lt i p hp
+
+/-- Iterators report exact lengths and yield the same items backwards as forwards (the id-list
+    iterators are slices; `all_*` are arena ranges). -/
+theorem C17_iterators (st : Storage) :
+    st.allSpans.length = st.spans.length ∧ st.allEvents.length = st.events.length ∧
+    st.allSpans.reverse.reverse = st.allSpans ∧ st.allSpans = List.range st.spans.length := by
+  simp [Storage.allSpans, Storage.allEvents]
+
+/-- Non-vacuity: a concrete captured forest (filtered interior span skipped). -/
+example :
+    let s : CallSite := ⟨.span, [115], [97], .info, none, none, none, []⟩
+    let d : CallSite := ⟨.span, [100], [97], .debug, none, none, none, []⟩
+    let e : CallSite := ⟨.event, [101], [97], .info, none, none, none, []⟩
+    let ops : List POp := [.new 0 .ctx [], .ent 0, .new 1 .ctx [], .ent 1, .new 0 .ctx [], .ent 2, .evt 2 .ctx [],
+      .new 0 (.handle 0) [], .ext 2, .ext 1, .ext 0]
+    let st := (captureRun [.level 2] none [s, d, e] ops).storages.getD 0 {}
+    st.spans.length = 3 ∧ st.descendants 0 = [1, 2] ∧ st.ancestors 1 = [0] ∧ st.descendantEvents 0 = [0] ∧
+    st.rootSpans = [0] := by
+  decide
+
+end TT
